@@ -654,6 +654,9 @@ func coreCmd(args []string) int {
 		res.Traces++
 		c.close()
 	}
+	if len(in.Windows) > 0 && in.Type == "log" {
+		largeMerge(in, res)
+	}
 	res.Stats["distinct_action_sequences"] = len(seen)
 	return res.write(args[1])
 }
@@ -778,4 +781,181 @@ func (r *coreRun) randomDrive(rng *rand.Rand, n int) {
 		}
 		r.res.Steps++
 	}
+}
+
+// largeMerge: a replica that is also a writer merges a long history (150 entries in one batch) and writes while the
+// merge is under way. In the specification this is Sync(r, H) and Write(r) in one order or the other: afterwards the
+// log holds the history and the write, the entry that was listed is still listed at the place its time gives it, Get
+// by address returns it, and the writer's next entry comes after everything it has seen.
+func largeMerge(in *CoreInput, res *Result) {
+	ctx := context.Background()
+	bid := "write-during-large-merge"
+	viol := func(kind, detail string, exp, got interface{}) {
+		res.violate(Violation{Property: in.Property, Kind: kind, Behaviour: bid, Detail: detail, Expected: exp, Got: got})
+	}
+	w := sim.NewWorld()
+	wn, err := w.AddPeer("lm-w").Start("")
+	if err != nil {
+		res.Inconclusive = append(res.Inconclusive, bid+": "+err.Error())
+		return
+	}
+	defer wn.Close()
+	rn, err := w.AddPeer("lm-r").Start("")
+	if err != nil {
+		res.Inconclusive = append(res.Inconclusive, bid+": "+err.Error())
+		return
+	}
+	defer rn.Close()
+	wd, err := wn.Open("lm", "eventlog", &orbitdb.CreateDBOptions{AccessController: sim.AccessFor([]string{"*"})})
+	if err != nil {
+		res.Inconclusive = append(res.Inconclusive, bid+": "+err.Error())
+		return
+	}
+	const n = 150
+	var head ipfslog.Entry
+	for i := 0; i < n; i++ {
+		op, err := wd.S.(orbitdb.EventLogStore).Add(ctx, []byte(fmt.Sprintf("h%03d", i)))
+		if err != nil {
+			res.Inconclusive = append(res.Inconclusive, bid+": "+err.Error())
+			return
+		}
+		head = copyEntry(op.GetEntry())
+	}
+	rd, err := rn.Open(wd.Addr, "eventlog", nil)
+	if err != nil {
+		res.Inconclusive = append(res.Inconclusive, bid+": "+err.Error())
+		return
+	}
+	if err := sim.Settle(settleTimeout, wn, rn); err != nil {
+		res.Inconclusive = append(res.Inconclusive, bid+": "+err.Error())
+		return
+	}
+	for _, m := range w.Bag() {
+		w.Take(m.ID)
+	}
+	if rd.S.OpLog().Len() != 0 {
+		res.Inconclusive = append(res.Inconclusive, bid+": the replica holds entries before the merge")
+		return
+	}
+	res.Behaviours++
+	mark("%s: the replica merges %d entries in one batch and writes meanwhile", bid, n)
+	target := rd.S
+	mine := func(args []interface{}) bool { return len(args) > 0 && sim.K(args[0]) == sim.K(target) }
+	sim.TheHub.ParkAt("join.log", mine)
+	defer sim.TheHub.ReleaseAll()
+	if err := target.Sync(ctx, []ipfslog.Entry{head}); err != nil {
+		sim.TheHub.Unpark("join.log")
+		viol("list-error", "Sync of a valid head failed: "+err.Error(), nil, nil)
+		return
+	}
+	p := parkedFor("join.log", func(p *sim.Parked) bool { return mine(p.Args) }, 20*time.Second)
+	if p == nil {
+		sim.TheHub.Unpark("join.log")
+		res.Inconclusive = append(res.Inconclusive, bid+": the merge did not begin within 20 s")
+		return
+	}
+	sim.TheHub.Unpark("join.log")
+	el := target.(orbitdb.EventLogStore)
+	list := func() ([]string, []ipfslog.Entry) {
+		all := -1
+		ops, err := el.List(ctx, &iface.StreamOptions{Amount: &all})
+		if err != nil {
+			viol("list-error", err.Error(), nil, nil)
+			return nil, nil
+		}
+		vals, es := []string{}, []ipfslog.Entry{}
+		for _, o := range ops {
+			vals = append(vals, string(o.GetValue()))
+			es = append(es, o.GetEntry())
+		}
+		return vals, es
+	}
+	type wr struct {
+		op  operation.Operation
+		err error
+	}
+	done := make(chan wr, 1)
+	go func() {
+		op, err := el.Add(ctx, []byte("mine-1"))
+		done <- wr{op, err}
+	}()
+	var own ipfslog.Entry
+	select {
+	case x := <-done:
+		if x.err != nil {
+			sim.TheHub.Release(p)
+			res.Inconclusive = append(res.Inconclusive, bid+": write during the merge: "+x.err.Error())
+			return
+		}
+		own = copyEntry(x.op.GetEntry())
+		res.Stats["writes_in_the_middle_of_a_merge"]++
+	case <-time.After(300 * time.Millisecond):
+		// (a store whose writes wait for the merge: the write lands after it; Write after Sync)
+	}
+	listedDuring := false
+	if own != nil {
+		vals, _ := list()
+		for _, v := range vals {
+			listedDuring = listedDuring || v == "mine-1"
+		}
+	}
+	sim.TheHub.Release(p)
+	if own == nil {
+		select {
+		case x := <-done:
+			if x.err != nil {
+				res.Inconclusive = append(res.Inconclusive, bid+": write: "+x.err.Error())
+				return
+			}
+			own = copyEntry(x.op.GetEntry())
+		case <-time.After(20 * time.Second):
+			viol("list-error", "a write made during a merge never returned", nil, nil)
+			return
+		}
+	}
+	if err := sim.Settle(settleTimeout, rn); err != nil {
+		res.Inconclusive = append(res.Inconclusive, bid+": "+err.Error())
+		return
+	}
+	res.Comparisons++
+	vals, es := list()
+	pos := -1
+	for i, v := range vals {
+		if v == "mine-1" {
+			pos = i
+		}
+	}
+	if pos < 0 && listedDuring {
+		viol("removed", fmt.Sprintf("an entry the replica wrote during a merge of %d entries was listed then and is not listed after the merge", n), "mine-1 listed", fmt.Sprintf("%d entries, mine-1 absent", len(vals)))
+		return
+	}
+	if pos < 0 {
+		viol("list", fmt.Sprintf("an entry the replica wrote during a merge of %d entries is not listed after the merge", n), "mine-1 listed", fmt.Sprintf("%d entries", len(vals)))
+		return
+	}
+	if len(vals) != n+1 {
+		viol("list", "after the merge and the write the listing does not hold the history and the write", n+1, len(vals))
+	}
+	for i := 1; i < len(es); i++ {
+		a, b := es[i-1].GetClock(), es[i].GetClock()
+		if a.GetTime() > b.GetTime() {
+			viol("order", "the listing is not in the order of the log", nil, fmt.Sprintf("position %d: time %d before time %d", i, a.GetTime(), b.GetTime()))
+			break
+		}
+	}
+	if e, ok := target.OpLog().Get(own.GetHash()); !ok || e == nil {
+		viol("get", "Get by address of an entry written during a merge does not return it", own.GetHash().String(), nil)
+	}
+	// the writer's next entry: after everything the replica has seen
+	op2, err := el.Add(ctx, []byte("mine-2"))
+	if err != nil {
+		res.Inconclusive = append(res.Inconclusive, bid+": second write: "+err.Error())
+		return
+	}
+	res.Comparisons++
+	t2 := op2.GetEntry().GetClock().GetTime()
+	if t2 <= own.GetClock().GetTime() || t2 <= head.GetClock().GetTime() {
+		viol("order", "the writer's next entry does not come after everything it had seen", fmt.Sprintf("> %d and > %d", own.GetClock().GetTime(), head.GetClock().GetTime()), t2)
+	}
+	res.Steps += 3
 }
